@@ -195,5 +195,7 @@ def body(ctx, shape):
             norm = lambda st: "OPENED" if st == "BEFORE_OPEN" else st  # noqa: E731
             ctx.require(norm(c.state.name) == norm(s.state.name), "sides-disagree-on-state-at-quiescence")
             if c.state.name != "CLOSED":
-                ctx.require(sess.set_eq(ctx, list(c._outstanding_requests), list(s._outstanding_requests)), "sides-disagree-on-operations-in-progress")
-                ctx.require(sess.set_eq(ctx, list(c._search_requests), [p[0] for p in pending if p[1] == "SearchRequest"]), "client-search-registry-disagrees-with-requests-seen")
+                co, cs_, _ = sess.roles(ctx, "client")
+                so, _, _ = sess.roles(ctx, "server")
+                ctx.require(sess.set_eq(ctx, list(getattr(c, co)), list(getattr(s, so))), "sides-disagree-on-operations-in-progress")
+                ctx.require(sess.set_eq(ctx, list(getattr(c, cs_)), [p[0] for p in pending if p[1] == "SearchRequest"]), "client-search-registry-disagrees-with-requests-seen")
